@@ -303,187 +303,137 @@ theorem mania_never_panics (sk : Skills S) (objs : List ManiaObj) (ops : List Op
       show (maniaNext sk objs g).1 ≠ _
       rw [this]; simp
 
-/-! ## osu!taiko — protocol violations of the code (known findings), as `decide`d witnesses -/
+/-! ## osu!taiko
+
+Since `/repo` `fix: taiko gradual difficulty counts the first two objects like every other hit` the
+protocol laws hold for **every** object list (`TaikoSt` = canonical state after `i` values, or the
+drained state after an exhausted call; `Lemmas/GradualTaikoNth.lean`).  `nth k` with
+`k ≥ remaining ≥ 1` still returns the last value (recorded finding `gradual-nth-clamps-to-last`,
+like the other three modes — `osu_nth_contract_fails`). -/
 
 def listSkills : Skills (List Nat) := ⟨[], fun s i => s ++ [i]⟩
 
-/-- On `[hit, non-hit, hit, hit]` the calculator announces 3 values but `next` yields 4, and
-after exhaustion `len()` underflows (`total_hits - idx` with `idx = total_hits + 1`). -/
-theorem taiko_len_underflow :
-    let objs := [true, false, true, true]
-    let m := taikoMachine listSkills objs
-    m.len (taikoNew listSkills objs) = some 3 ∧
-    ((m.nexts (taikoNew listSkills objs) 4).1.map (fun r => decide (r ≠ Res.none))) = [true, true, true, true] ∧
-    m.len (m.nexts (taikoNew listSkills objs) 4).2 = none := by
-  decide
-
-
-/-! ### taiko, regular maps (first two objects hits, at least three objects): what does hold -/
-
-/-- `len()` is the number of values still to come, in every canonical state. -/
-theorem taiko_len_eq_remaining_partial (sk : Skills S) (rest : List Bool) (g : TaikoGrad S) (i : Nat)
-    (hc : TaikoCanon sk rest g i) :
-    (taikoMachine sk (true :: true :: rest)).len g = some (2 + hitsIn rest - i) := by
-  have hH : ((true :: true :: rest).filter id).length = 2 + hitsIn rest := by
-    show hitsIn (true :: true :: rest) = _
-    rw [hitsIn_cons, hitsIn_cons]; simp; omega
-  show csub ((true :: true :: rest).filter id).length g.idx = _
-  rw [hH, hc.idx]
-  have := hc.le
-  simp [csub, this]
-
-/-- Once the last hit has been reported every further `next` returns `None`, without panicking,
-and `len()` stays 0 (no underflow on regular maps). -/
-theorem taiko_exhausted_stays_none_partial (sk : Skills S) (rest : List Bool) (g : TaikoGrad S)
-    (hc : TaikoCanon sk rest g (2 + hitsIn rest)) :
-    let objs := true :: true :: rest
-    let r1 := taikoNext sk objs g
-    let r2 := taikoNext sk objs r1.2
-    r1.1 = none ∧ r2.1 = none ∧ r2.2 = r1.2 ∧ (taikoMachine sk objs).len r1.2 = some 0 := by
-  intro objs r1 r2
-  obtain ⟨hidx, hcombo, hpos, hsk, hge, hle⟩ := hc
-  have hdrop : objs.drop 2 = rest := rfl
-  have hqle : cutLen rest (2 + hitsIn rest - 2) ≤ rest.length := cutLen_le _ _
-  have hrem : hitsIn (rest.drop (cutLen rest (2 + hitsIn rest - 2))) = 0 := by
-    rw [hitsIn_drop_cutLen rest _ (by omega)]; omega
-  have hidx2 : g.idx ≥ 2 := by omega
-  have hl := taikoHitLoop_dry sk rest (rest.length + 1) g _ hpos hsk hqle hrem (by omega)
-  have hr1 : r1 = (none, { g with iterPos := rest.length, skills := processedPrefix sk rest.length }) := by
-    simp only [r1, taikoNext, hdrop, hidx2, ↓reduceIte, hl]
-  have hdrop0 : hitsIn (rest.drop rest.length) = 0 := by simp [hitsIn]
-  have hl2 := taikoHitLoop_dry sk rest (rest.length + 1)
-    ({ g with iterPos := rest.length, skills := processedPrefix sk rest.length } : TaikoGrad S) rest.length rfl rfl
-    (Nat.le_refl _) hdrop0 (by omega)
-  have hr2 : r2 = (none, { g with iterPos := rest.length, skills := processedPrefix sk rest.length }) := by
-    simp only [r2, hr1, taikoNext, hdrop, hidx2, ↓reduceIte, hl2]
-  refine ⟨by rw [hr1], by rw [hr2], by rw [hr2, hr1], ?_⟩
-  rw [hr1]
-  have hH : (objs.filter id).length = 2 + hitsIn rest := by
-    show hitsIn (true :: true :: rest) = _
-    rw [hitsIn_cons, hitsIn_cons]; simp; omega
-  show csub (objs.filter id).length g.idx = some 0
-  rw [hH, hidx]; simp [csub]
-
-/-! ### taiko, regular maps: arbitrary operation sequences including `nth`
-
-`TaikoSt sk rest g i` (`Lemmas/GradualTaikoNth.lean`): `g` is the state after `i` values — the
-regular state `TaikoReg` (for `i = 0, 1` no difficulty object has been consumed yet: these are the
-states in which `nth` takes its `(take, idx)` fast paths `(1, 0)`, `(_, 0)`, `(_, 1)`), or, for
-`i =` number of hits, the drained state left by an exhausted `next`/`nth`. -/
-
-/-- Every state reachable by `next` / `nth k` (any `k`) / `len` on a regular map is one of these
-states: `idx` never exceeds the number of hits. -/
-theorem taiko_reachable_partial (sk : Skills S) (rest : List Bool) (hne : rest ≠ []) (ops : List Op) :
-    let objs := true :: true :: rest
-    ∃ i, TaikoSt sk rest ((taikoMachine sk objs).exec (taikoNew sk objs) ops) i := by
-  intro objs
-  suffices h : ∀ (g : TaikoGrad S) (i : Nat), TaikoSt sk rest g i →
-      ∃ j, TaikoSt sk rest ((taikoMachine sk objs).exec g ops) j from
-    h _ 0 (Or.inl (taikoNew_reg sk rest))
+/-- Every reachable state is canonical or drained. -/
+theorem taiko_reachable (sk : Skills S) (objs : List Bool) (ops : List Op) :
+    ∃ i, TaikoSt sk objs ((taikoMachine sk objs).exec (taikoNew sk objs) ops) i := by
+  suffices h : ∀ (g : TaikoGrad S) (i : Nat), TaikoSt sk objs g i →
+      ∃ j, TaikoSt sk objs ((taikoMachine sk objs).exec g ops) j from
+    h _ 0 (Or.inl (taikoNew_canon sk objs))
   induction ops with
   | nil => intro g i hs; exact ⟨i, hs⟩
   | cons op ops ih =>
     intro g i hs
     cases op with
     | next =>
-      show ∃ j, TaikoSt sk rest ((taikoMachine sk objs).exec (taikoNext sk objs g).2 ops) j
-      rcases hs with hc | ⟨he, hd⟩
-      · have hle := hc.le
-        rcases Nat.lt_or_ge i (2 + hitsIn rest) with hlt | hge
-        · exact ih _ (i + 1) (Or.inl ((taikoNext_reg sk rest hne g i hc).1 hlt).2)
-        · have heq : i = 2 + hitsIn rest := by omega
-          exact ih _ i (Or.inr ⟨heq, ((taikoNext_reg sk rest hne g i hc).2 heq).2⟩)
-      · rw [taikoNext_drained sk rest g hd]
-        exact ih g i (Or.inr ⟨he, hd⟩)
+      show ∃ j, TaikoSt sk objs ((taikoMachine sk objs).exec (taikoNext sk objs g).2 ops) j
+      obtain ⟨j, hj⟩ := taikoNext_st sk objs g i hs
+      exact ih _ j hj
     | nth k =>
-      show ∃ j, TaikoSt sk rest ((taikoMachine sk objs).exec (taikoNth sk objs g k false).2 ops) j
-      rcases hs with hc | ⟨he, hd⟩
-      · have hle := hc.le
-        rcases Nat.lt_or_ge i (2 + hitsIn rest) with hlt | hge
-        · exact ih _ _ (Or.inl ((taikoNth_reg sk rest hne g i k false hc).1 hlt).2)
-        · have heq : i = 2 + hitsIn rest := by omega
-          exact ih _ i (Or.inr ⟨heq, ((taikoNth_reg sk rest hne g i k false hc).2 heq).2⟩)
-      · rw [taikoNth_drained sk rest g k false hd]
-        exact ih g i (Or.inr ⟨he, hd⟩)
+      show ∃ j, TaikoSt sk objs ((taikoMachine sk objs).exec (taikoNth sk objs g k).2 ops) j
+      obtain ⟨j, hj⟩ := (taikoNth_st sk objs g i k hs).2
+      exact ih _ j hj
     | len => exact ih g i hs
 
-/-- In every such state `len()` is the number of values still to come (no underflow). -/
-theorem taiko_len_eq_remaining_st_partial (sk : Skills S) (rest : List Bool) (g : TaikoGrad S) (i : Nat)
-    (hs : TaikoSt sk rest g i) :
-    (taikoMachine sk (true :: true :: rest)).len g = some (2 + hitsIn rest - i) :=
-  taikoLen_st sk rest g i hs
+/-- `len()` equals the number of values still to come in every reachable state — also after
+exhaustion (`0`); the subtraction `total_hits - idx` never underflows. -/
+theorem taiko_len_eq_remaining (sk : Skills S) (objs : List Bool) (g : TaikoGrad S) (i : Nat)
+    (hs : TaikoSt sk objs g i) :
+    (taikoMachine sk objs).len g = some (hitsIn objs - i) :=
+  taikoLen_st sk objs g i hs
 
-/-- What `nth` does on a regular map (both build profiles): it consumes `min (k+1) remaining`
-hits and returns the last of them — through whichever of the fast paths applies — and lands in
-the regular state with that index; `None` iff nothing remains, and then (and from the drained
-state) nothing but the iterator position changes. -/
-theorem taiko_nth_processes_min_partial (sk : Skills S) (rest : List Bool) (hne : rest ≠ [])
-    (g : TaikoGrad S) (i k : Nat) (checked : Bool) (hc : TaikoReg sk rest g i) :
-    let objs := true :: true :: rest
-    let H := 2 + hitsIn rest
+/-- Once all `H` values are out, every further `next` returns `None`, changes nothing after the
+first such call, and `len()` is `0`. -/
+theorem taiko_exhausted_stays_none (sk : Skills S) (objs : List Bool) (g : TaikoGrad S)
+    (hc : TaikoCanon sk objs g (hitsIn objs)) :
+    let r1 := taikoNext sk objs g
+    let r2 := taikoNext sk objs r1.2
+    r1.1 = none ∧ r2.1 = none ∧ r2.2 = r1.2 ∧ (taikoMachine sk objs).len r1.2 = some 0 := by
+  intro r1 r2
+  obtain ⟨h1, hd⟩ := taikoNext_exhausted sk objs g hc
+  have h2 := taikoNext_drained sk objs r1.2 hd
+  refine ⟨h1, by simp [r2, h2], by simp [r2, h2], ?_⟩
+  have := taikoLen_st sk objs r1.2 (hitsIn objs) (Or.inr ⟨rfl, hd⟩)
+  show taikoLen objs r1.2 = some 0
+  simpa using this
+
+/-- `nth k` from the canonical state after `i` values: `None` when nothing remains, otherwise the
+value number `i + min (k + 1) (H - i)` (`min n (r - 1) + 1 = min (n + 1) r`), leaving the
+canonical state after that many values; from a drained state it returns `None` and changes
+nothing. -/
+theorem taiko_nth_processes_min (sk : Skills S) (objs : List Bool) (g : TaikoGrad S) (i k : Nat)
+    (hc : TaikoCanon sk objs g i) :
+    let H := hitsIn objs
     (i < H →
-      (taikoNth sk objs g k checked).1 = .some (taikoValue sk rest (i + min (k + 1) (H - i))) ∧
-      TaikoReg sk rest (taikoNth sk objs g k checked).2 (i + min (k + 1) (H - i))) ∧
-    (i = H → (taikoNth sk objs g k checked).1 = .none ∧
-      TaikoDrained sk rest (taikoNth sk objs g k checked).2) ∧
-    (∀ g', TaikoDrained sk rest g' → taikoNth sk objs g' k checked = (.none, g')) :=
-  ⟨(taikoNth_reg sk rest hne g i k checked hc).1, (taikoNth_reg sk rest hne g i k checked hc).2,
-    fun g' hd => taikoNth_drained sk rest g' k checked hd⟩
+      (taikoNth sk objs g k).1 = .some (taikoValue sk objs (i + min (k + 1) (H - i))) ∧
+      TaikoCanon sk objs (taikoNth sk objs g k).2 (i + min (k + 1) (H - i))) ∧
+    (i = H → (taikoNth sk objs g k).1 = .none) ∧
+    (∀ g', TaikoDrained sk objs g' → taikoNth sk objs g' k = (.none, g')) := by
+  intro H
+  refine ⟨fun hlt => ?_, fun heq => ((taikoNth_spec sk objs g i k hc).1 heq).1,
+    fun g' hd => taikoNth_drained sk objs g' k hd⟩
+  have e : i + min k (hitsIn objs - i - 1) + 1 = i + min (k + 1) (H - i) := by omega
+  have := (taikoNth_spec sk objs g i k hc).2 hlt
+  rw [e] at this
+  exact this
 
-/-- **Partial** form of the iterator contract for taiko: when at least `k+1` values remain,
-`nth k` is exactly `k+1` calls of `next` (same result, same successor state index). -/
-theorem taiko_nth_eq_iterated_next_partial (sk : Skills S) (rest : List Bool) (hne : rest ≠ [])
-    (g : TaikoGrad S) (i k : Nat) (hc : TaikoReg sk rest g i) (hk : i + k + 1 ≤ 2 + hitsIn rest) :
-    let m := taikoMachine sk (true :: true :: rest)
+/-- The iterator contract for taiko: when at least `k+1` values remain, `nth k` is exactly `k+1`
+calls of `next` (same result, same successor state index). -/
+theorem taiko_nth_eq_iterated_next (sk : Skills S) (objs : List Bool)
+    (g : TaikoGrad S) (i k : Nat) (hc : TaikoCanon sk objs g i) (hk : i + k + 1 ≤ hitsIn objs) :
+    let m := taikoMachine sk objs
     some (m.nth g k).1 = (m.nexts g (k + 1)).1.getLast? ∧
-    TaikoReg sk rest (m.nth g k).2 (i + k + 1) ∧ TaikoReg sk rest (m.nexts g (k + 1)).2 (i + k + 1) := by
+    TaikoCanon sk objs (m.nth g k).2 (i + k + 1) ∧ TaikoCanon sk objs (m.nexts g (k + 1)).2 (i + k + 1) := by
   intro m
-  have hlt : i < 2 + hitsIn rest := by omega
-  obtain ⟨hv, hcn⟩ := (taikoNth_reg sk rest hne g i k false hc).1 hlt
-  have e : i + min (k + 1) (2 + hitsIn rest - i) = i + k + 1 := by omega
+  have hlt : i < hitsIn objs := by omega
+  obtain ⟨hv, hcn⟩ := (taiko_nth_processes_min sk objs g i k hc).1 hlt
+  have e : i + min (k + 1) (hitsIn objs - i) = i + k + 1 := by omega
   rw [e] at hv hcn
-  obtain ⟨hvs, hcs⟩ := taiko_nexts_reg sk rest hne (k + 1) g i hc (by omega)
+  obtain ⟨hvs, hcs⟩ := taiko_nexts_spec sk objs (k + 1) g i hc (by omega)
   refine ⟨?_, hcn, by simpa [Nat.add_assoc] using hcs⟩
-  show some (taikoNth sk (true :: true :: rest) g k false).1 = _
+  show some (taikoNth sk objs g k).1 = _
   rw [hv, hvs, List.range_succ]
   simp
 
-/-- On a regular map no operation sequence makes `nth`, `next` or `len` hit the unchecked
-subtraction `total_hits - idx` (in a build with overflow checks: no panic; in the release profile:
-no wrap-around — both profiles give the same results). -/
-theorem taiko_never_panics_partial (sk : Skills S) (rest : List Bool) (hne : rest ≠ [])
-    (ops : List Op) (k : Nat) (checked : Bool) :
-    let objs := true :: true :: rest
+/-- No operation sequence on any map makes `nth`, `next` or `len` hit the unchecked subtraction
+`total_hits - idx`: `nth` never panics and `len()` is always defined. -/
+theorem taiko_never_panics (sk : Skills S) (objs : List Bool) (ops : List Op) (k : Nat) :
     let g := (taikoMachine sk objs).exec (taikoNew sk objs) ops
-    (taikoNth sk objs g k checked).1 ≠ .panic ∧ (taikoMachine sk objs).len g ≠ none ∧
-      taikoNth sk objs g k true = taikoNth sk objs g k false := by
-  intro objs g
-  obtain ⟨i, hs⟩ := taiko_reachable_partial sk rest hne ops
-  refine ⟨?_, by rw [taiko_len_eq_remaining_st_partial sk rest g i hs]; simp, ?_⟩
-  · rcases hs with hc | ⟨he, hd⟩
-    · rcases Nat.lt_or_ge i (2 + hitsIn rest) with hlt | hge
-      · rw [((taikoNth_reg sk rest hne g i k checked hc).1 hlt).1]; simp
-      · have heq : i = 2 + hitsIn rest := by have := hc.le; omega
-        rw [((taikoNth_reg sk rest hne g i k checked hc).2 heq).1]; simp
-    · rw [taikoNth_drained sk rest g k checked hd]; simp
-  · have hidx : g.idx = i ∧ i ≤ 2 + hitsIn rest := by
-      rcases hs with hc | ⟨he, hd⟩
-      · exact ⟨hc.idx, hc.le⟩
-      · exact ⟨by rw [hd.idx, he], by omega⟩
-    rw [taikoNth_eq, taikoNth_eq, taikoLenSel rest g i hidx.1 hidx.2 true,
-      taikoLenSel rest g i hidx.1 hidx.2 false]
+    (taikoNth sk objs g k).1 ≠ .panic ∧ (taikoMachine sk objs).len g ≠ none := by
+  intro g
+  obtain ⟨i, hs⟩ := taiko_reachable sk objs ops
+  exact ⟨(taikoNth_st sk objs g i k hs).1, by rw [taiko_len_eq_remaining sk objs g i hs]; simp⟩
 
-/-- Non-vacuity: `[hit, hit, roll, hit, hit, roll]`; `nth 1` from the start takes the `(1, 0)`
-fast path and reports the 2nd hit, `nth 5` then clamps to the last (4th) hit having processed
-three difficulty objects, a further `nth 0` returns `None` and drains the trailing drum roll. -/
+/-- Pre-fix machine (`Old`): on `[hit, non-hit, hit, hit]` the calculator announced 3 values but
+`next` yielded 4, and after exhaustion `len()` underflowed (`total_hits - idx` with
+`idx = total_hits + 1`). -/
+theorem taiko_len_underflow :
+    let objs := [true, false, true, true]
+    let m := Old.taikoMachine listSkills objs
+    m.len (taikoNew listSkills objs) = some 3 ∧
+    ((m.nexts (taikoNew listSkills objs) 4).1.map (fun r => decide (r ≠ Res.none))) = [true, true, true, true] ∧
+    m.len (m.nexts (taikoNew listSkills objs) 4).2 = none := by
+  decide
+
+/-- The same input as fixed: 3 values, then `None`, `len()` = 0. -/
 example :
-    let objs := [true, true, false, true, true, false]
+    let objs := [true, false, true, true]
+    let m := taikoMachine listSkills objs
+    m.len (taikoNew listSkills objs) = some 3 ∧
+    ((m.nexts (taikoNew listSkills objs) 4).1.map (fun r => decide (r ≠ Res.none))) = [true, true, true, false] ∧
+    m.len (m.nexts (taikoNew listSkills objs) 4).2 = some 0 := by
+  decide
+
+/-- Non-vacuity: `[roll, hit, roll, hit, hit, roll]` (irregular start); `nth 1` from the start
+reports the 2nd hit having processed two difficulty objects, `nth 5` then clamps to the last (3rd)
+hit, a further `nth 0` returns `None` and drains the trailing drum roll. -/
+example :
+    let objs := [false, true, false, true, true, false]
     let m := taikoMachine listSkills objs
     let g0 := taikoNew listSkills objs
-    (m.nth g0 1).1 = .some (2, []) ∧ (m.nth (m.nth g0 1).2 5).1 = .some (4, [0, 1, 2]) ∧
+    (m.nth g0 1).1 = .some (2, [0, 1]) ∧ (m.nth (m.nth g0 1).2 5).1 = .some (3, [0, 1, 2]) ∧
     (m.nth (m.nth (m.nth g0 1).2 5).2 0).1 = .none ∧
     m.len (m.nth (m.nth (m.nth g0 1).2 5).2 0).2 = some 0 ∧
-    (m.nth g0 2).1 = .some (3, [0, 1]) ∧ (m.nth (m.next g0).2 7).1 = .some (4, [0, 1, 2]) := by
+    (m.nth g0 2).1 = .some (3, [0, 1, 2]) ∧ (m.nth (m.next g0).2 7).1 = .some (3, [0, 1, 2]) := by
   decide
 
 /-- Non-vacuity: a concrete three-object map, after `next; nth 0`, is in the canonical state 2. -/
